@@ -700,3 +700,144 @@ Proof.
   split; [unfold batch_ok, wf_opd, rank; simpl; repeat split; try lia; [left; discriminate | intros d e H1 H2; now inversion H1; inversion H2]|].
   split; [reflexivity|]. split; eexists; split; reflexivity.
 Qed.
+
+(* ================================================================== REDUCTION-type batch rules *)
+(* An axis-parameterised primitive (softmax, standardize, ...): every output element is a function k of the FIBER of
+   the operand along the given axes (extents, fiber as an index function, position inside the fiber).
+   Images  jax2onnx/plugins/jax/nn/standardize.py : _standardize_batch_rule  (move the batch axis to the front, shift the
+   canonical axes past it, bind the primitive on the batched array)  and  nn/softmax.py : _softmax_batch_rule  (move to
+   front, canonicalise the axis against the PER-EXAMPLE rank, jax.vmap the original over axis 0). *)
+Fixpoint set_nth {A} (n : nat) (a : A) (l : list A) : list A :=
+  match n, l with
+  | _, [] => []
+  | 0, _ :: r => a :: r
+  | S n', x :: r => x :: set_nth n' a r
+  end.
+(* idx with the coordinates at `axes` replaced by `sub` *)
+Fixpoint scatter (idx axes sub : list nat) : list nat :=
+  match axes, sub with a :: ar, v :: vr => scatter (set_nth a v idx) ar vr | _, _ => idx end.
+
+Definition kernel (A : Type) := list nat -> (list nat -> A) -> list nat -> A.
+Definition fiberop {A} (k : kernel A) (axes : list nat) (x : tensor A) : tensor A :=
+  mkT (shape x) (fun idx => k (gather 0 axes (shape x)) (fun sub => at_ x (scatter idx axes sub)) (gather 0 axes idx)).
+(* the only hypothesis on the primitive: the kernel looks at the fiber through its values *)
+Definition kernel_ext {A} (k : kernel A) : Prop :=
+  forall e f g p, (forall sub, f sub = g sub) -> k e f p = k e g p.
+
+(* Python axis canonicalisation  a if a >= 0 else a + rank *)
+Definition canon (r : nat) (a : Z) : nat := Z.to_nat (if (a <? 0)%Z then (a + Z.of_nat r)%Z else a).
+Definition axis_valid (r : nat) (a : Z) : Prop := (- Z.of_nat r <= a < Z.of_nat r)%Z.
+(* what the USER wrote: prim(x, axis=axes) on the unbatched operand *)
+Definition prim_axes {A} (k : kernel A) (axes : list Z) (x : tensor A) : tensor A :=
+  fiberop k (map (canon (rank x)) axes) x.
+
+(* vmap(f, in_axes=d, out_axes=0)(x) *)
+Definition vmap_spec1 {A} (f : tensor A -> tensor A) (x : tensor A) (d : nat) : tensor A :=
+  stack0 (nth d (shape x) 0) (fun b => f (slice d x b)).
+
+Lemma scatter_shift : forall axes sub b r, scatter (b :: r) (map S axes) sub = b :: scatter r axes sub.
+Proof. induction axes as [|a ar IH]; intros [|v vr] b r; simpl; auto. Qed.
+Lemma gather_shift {T} (dflt : T) axes b r : gather dflt (map S axes) (b :: r) = gather dflt axes r.
+Proof. unfold gather. rewrite map_map. reflexivity. Qed.
+
+(* binding the primitive on the batched array with the axes shifted past a FRONT batch axis = per-example application *)
+Lemma fiberop_shift {A} (k : kernel A) axes (x' : tensor A) Bsz s (g : nat -> tensor A) :
+  kernel_ext k -> shape x' = Bsz :: s ->
+  (forall b, shape (g b) = s) -> (forall b idx, at_ (g b) idx = at_ x' (b :: idx)) ->
+  teq (fiberop k (map S axes) x') (stack0 Bsz (fun b => fiberop k axes (g b))).
+Proof.
+  intros Hk Hs Hgs Hga. unfold teq. cbn [fiberop stack0 shape at_]. rewrite Hs, Hgs. split; [reflexivity|].
+  intros idx Hi. destruct idx as [|b r]; [inversion Hi|]. cbn [hd tl].
+  rewrite !gather_shift, Hgs. apply Hk. intro sub. now rewrite scatter_shift, Hga.
+Qed.
+
+(* ---- standardize-style rule (current code, commit 910bb71) *)
+Definition reduce_rule {A} (k : kernel A) (axes : list Z) (x : tensor A) (d : nat) : tensor A * nat :=
+  let x' := front d x in
+  (fiberop k (map (fun a => S (canon (rank x' - 1) a)) axes) x', 0).
+
+Theorem reduce_rule_correct {A} (k : kernel A) axes (x : tensor A) d :
+  kernel_ext k -> d < rank x ->
+  teq (front (snd (reduce_rule k axes x d)) (fst (reduce_rule k axes x d))) (vmap_spec1 (prim_axes k axes) x d).
+Proof.
+  intros Hk Hd. unfold reduce_rule. cbn [fst snd].
+  assert (Hr : rank (front d x) - 1 = rank x - 1).
+  { unfold rank. simpl. rewrite remove_at_length by exact Hd. unfold rank in Hd. lia. }
+  assert (Hrs : forall b, rank (slice d x b) = rank x - 1).
+  { intro b. unfold rank. simpl. now apply remove_at_length. }
+  rewrite Hr, <- map_map.
+  set (y := fiberop k (map S (map (canon (rank x - 1)) axes)) (front d x)).
+  assert (Hy : teq y (vmap_spec1 (prim_axes k axes) x d)).
+  { unfold y, vmap_spec1, prim_axes.
+    eapply teq_trans.
+    - apply (@fiberop_shift A k (map (canon (rank x - 1)) axes) (front d x) (nth d (shape x) 0) (remove_at d (shape x))
+               (fun b => slice d x b)); auto.
+    - unfold teq. cbn [stack0 shape at_ fiberop slice]. split; [reflexivity|].
+      intros idx _. now rewrite Hrs. }
+  eapply teq_trans; [|exact Hy].
+  (* front 0 of a tensor of rank >= 1 is the tensor itself *)
+  unfold teq, front. cbn [shape at_]. unfold y. cbn [fiberop shape front]. cbn [nth remove_at]. split; [reflexivity|].
+  intros idx Hi. destruct idx as [|b r]; [inversion Hi|]. reflexivity.
+Qed.
+
+(* HISTORY (before 910bb71): standardize used the unary ELEMENTWISE rule: bind with the user's axes on the batched
+   array, keep the batch dim.  Refuted below (reduce_elementwise_rule_refuted). *)
+Definition reduce_elementwise_rule {A} (k : kernel A) (axes : list Z) (x : tensor A) (d : nat) : tensor A * nat :=
+  (prim_axes k axes x, d).
+
+(* ---- softmax-style rule: move to front, vmap the original over axis 0 with the body axis `body` *)
+Definition softmax_rule_with {A} (body : nat) (k : kernel A) (x : tensor A) (d : nat) : tensor A * nat :=
+  let x' := front d x in (stack0 (nth d (shape x) 0) (fun b => fiberop k [body] (slice 0 x' b)), 0).
+(* current code (commit c86dca6): canonicalised against the per-example rank *)
+Definition softmax_rule {A} (k : kernel A) (a : Z) (x : tensor A) (d : nat) := softmax_rule_with (canon (rank x - 1) a) k x d.
+(* historical: canonicalised against the rank of the BATCHED array, then corrected relative to the batch dim *)
+Definition softmax_body_axis_old (rb : nat) (a : Z) (d : nat) : nat :=
+  let c := canon rb a in if c =? d then 0 else if c <? d then c else c - 1.
+
+Theorem softmax_rule_correct {A} (k : kernel A) a (x : tensor A) d :
+  d < rank x ->
+  teq (front (snd (softmax_rule k a x d)) (fst (softmax_rule k a x d))) (vmap_spec1 (prim_axes k [a]) x d).
+Proof.
+  intro Hd. unfold softmax_rule, softmax_rule_with, vmap_spec1, prim_axes. cbn [fst snd].
+  assert (Hrs : forall b, rank (slice d x b) = rank x - 1).
+  { intro b. unfold rank. simpl. now apply remove_at_length. }
+  unfold teq, front, stack0. cbn [shape at_ nth remove_at fiberop slice map]. split; [reflexivity|].
+  intros idx Hi. destruct idx as [|b r]; [inversion Hi|]. cbn [hd tl insert_at]. now rewrite Hrs.
+Qed.
+
+(* the historical body axis equals the per-example axis EXACTLY when ... (r = per-example rank, p = canonical axis) *)
+Theorem softmax_old_axis_iff r a d : axis_valid r a -> d <= r ->
+  let p := canon r a in
+  softmax_body_axis_old (S r) a d = p <->
+  ((a < 0)%Z /\ (d <= p \/ (p = 0 /\ d = 1))) \/ ((0 <= a)%Z /\ (p < d \/ (p = 0 /\ d = 0))).
+Proof.
+  unfold axis_valid, softmax_body_axis_old, canon. intros Ha Hd. cbv zeta.
+  destruct (Z.ltb_spec a 0);
+    repeat match goal with |- context [?u =? ?v] => destruct (Nat.eqb_spec u v) | |- context [?u <? ?v] => destruct (Nat.ltb_spec u v) end;
+    lia.
+Qed.
+Example softmax_old_axis_refuted : softmax_body_axis_old 4 2 0 <> canon 3 2.
+Proof. vm_compute. discriminate. Qed.
+
+(* ---- an integer kernel for refutations and for the differential tie: 100 * own value + position-weighted fiber sum *)
+Definition kz : kernel Z := fun ext fib pos =>
+  (100 * fib pos + fold_left Z.add (map (fun sub => Z.of_nat (1 + ravel_aux 0 ext sub) * fib sub) (all_idx ext)) 0)%Z.
+Lemma kz_ext : kernel_ext kz.
+Proof.
+  intros e f g p H. unfold kz. rewrite H. f_equal.
+  f_equal. apply map_ext. intro sub. now rewrite H.
+Qed.
+
+(* standardize(x, axis=(1,)) on per-example [2,2], batched on axis 0: the elementwise rule reduces per-example axis 0 *)
+Definition wr : tensor Z := mkT [2; 2; 2] (fun idx => Z.of_nat (4 * nth 0 idx 0 + 2 * nth 1 idx 0 + nth 2 idx 0)).
+Theorem reduce_elementwise_rule_refuted :
+  ~ teq (front (snd (reduce_elementwise_rule kz [1%Z] wr 0)) (fst (reduce_elementwise_rule kz [1%Z] wr 0)))
+        (vmap_spec1 (prim_axes kz [1%Z]) wr 0).
+Proof.
+  intros [_ H]. specialize (H [0; 0; 1]).
+  assert (Hr : in_range (shape (front 0 (fst (reduce_elementwise_rule kz [1%Z] wr 0)))) [0; 0; 1]) by (vm_compute; repeat constructor).
+  specialize (H Hr). vm_compute in H. discriminate.
+Qed.
+Example reduce_rule_on_witness :
+  teqb (front 0 (fst (reduce_rule kz [1%Z] wr 0))) (vmap_spec1 (prim_axes kz [1%Z]) wr 0) = true.
+Proof. vm_compute. reflexivity. Qed.
